@@ -1,6 +1,6 @@
 """C15 - printing is lossless and canonical; serialisations are well-formed."""
 import os
-from lib import vf, qh
+from lib import vf, qh, tsan
 
 
 def run(ctx):
@@ -24,13 +24,16 @@ def run(ctx):
     runs += [(b, [t, p, np_o]) for t in ('double', 'longdouble') for p in range(np_o)]
     runs += [(r[0], []) for c, r in built] + [(bc, [])]
     ctx.pmap(lambda r: ctx.run(r[0], r[1]), runs)
+    tsan.run(ctx, 'print', 'concurrent-printing')
     rule = ('numbers: %s; for double and long double every notation boundary {0.001 .. 10000} with %d floating-point neighbours on each '
             'side, every power of two and of ten in range with neighbours, min/max normal and %s stratified bit patterns. Each: exactly '
             'max_digits10+1 significant digits, fixed iff 0.001 <= |x| < 10000 (decided exactly in __float128), "0" for zeros, '
             'ParseNumber<T>(Print(x)) bit-identical. Composite: every quantity type and the 4 vector/tensor classes x 3 numeric types x '
             'slot-distinct values spread over all notation intervals, standard forms and every unit: number texts of Print/JSON/XML/YAML '
             'equal PhQ::Print(c_i) in declared order, unit abbreviation present, JSON accepted by an independent recursive-descent '
-            'parser with value/unit fields and x..zz keys in order, XML tags / YAML braces balanced, operator<< == Print(). '
+            'parser with value/unit fields and x..zz keys in order, XML tags / YAML braces balanced, operator<< == Print() in six stream states (fresh; field width with right/left/internal adjustment and fill; '
+            'leftover scientific/showpos/uppercase/hexfloat flags and precision; two objects per statement) with the stream left in the same state. '
+            'Plus one free-running ThreadSanitizer pass: printing and serialising from two threads at once gives the single-threaded strings and no data race. '
             'distinct_nontrivial = distinct finite normal numbers printed and parsed back') % (
                 'ALL 2^32 float bit patterns' if thorough else 'every 4093rd float bit pattern', 4096 if thorough else 1024,
                 '2^22' if thorough else '2^16')
